@@ -53,4 +53,42 @@ TEXTS = {
           "(class error-choice, stated limitation); the triage reasons that are prose, not checkable. Queries (calls whose value is consumed) are assumed free of order-dependent effects.",
   "technique": "effect classification of map iterations + CFG sort-before-use must-pass-through + who-may-reference tables (go/types, go/cfg)",
  },
+ "C03": {
+  "text": "Decides structural necessary conditions of 'no false negative': registry integrity (each breaking RuleSpecBuilder's handler variable, bound function and builder variable "
+          "agree with the rule ID; every non-deprecated rule is listed in every spec version except a frozen introduced-later table; replacements exist); R-LABEL current/previous "
+          "origin labels (flow-insensitive, fixed point over helper parameters) show that each pair adapter calls f(w, req, current, previous) with the current element looked "
+          "up in the current index under the previous key, that every range/lookup/annotate-on-miss loop ranges over previous and looks up in current keyed by the range key "
+          "(one documented two-direction rule), that every NO_DELETE rule reaches such a loop, that helper parameters forming a current/previous pair keep one label over all "
+          "call sites (sibling call sites agree: catches a swapped argument pair), and that AddProtosourceAnnotation is located at current/nil and refers to previous; an "
+          "annotation call is reachable from every handler; the wire and wire+JSON tables have a key for every protoreflect.Kind.",
+  "note": "Not decided: that each predicate implements the documented notion of breaking for every schema pair; nested/extension/map coverage beyond the traversal structure. Index builders are assumed pure.",
+  "technique": "literal-table extraction + origin-label dataflow over go/types objects + static call closure",
+ },
+ "C04": {
+  "text": "Decides the table side of the category ordering and of 'additions are never reported': for each spec version and adjacent pair FILE→PACKAGE→WIRE_JSON→WIRE every rule of "
+          "the laxer category is a member of the stricter one or all rules of a frozen, reasoned implication table that imply it are; the WIRE_JSON compatibility partition "
+          "refines the WIRE partition (folded map literals); the reservation exemptions fold to 'not allowed' when both allow-flags are false (boolean partial evaluation over "
+          "the CFG) and the three NO_DELETE variants pass flag tuples matching their IDs; the pair adapters invoke callbacks only inside loops over previous collections.",
+  "note": "Not decided: absence of false positives for arbitrary additive chains (value semantics of 60 predicates); the implication table is the author's reading of the documentation and is trusted.",
+  "technique": "table obligations over composite literals + three-valued partial evaluation of guards + origin labels",
+ },
+ "C05": {
+  "text": "Narrow: lint registry integrity (as C03); every lint handler is built by a NewLint* adapter whose static call chain ends in NewLintFilesRuleHandler, where the slice handed "
+          "on is appended to only under !file.IsImport() (raw handlers are a frozen list and must test IsImport themselves); ForEachMessage/Enum/Extension visit their level and "
+          "recurse into Messages(); each element adapter calls the accessors its kind needs (fields and extensions at message and file level, enum values, oneofs, methods); "
+          "every handler reaches an annotation call; lint options are wired like-named field to field from LintConfig to bufcheckopt, each stored key is the key its Get* reader "
+          "uses and each reader is consulted by a handler.",
+  "note": "Not decided (the heart of the property): the case-conversion / suffix / prefix predicates, exact line and column, and 'nothing for unrelated rules'. This check would not notice a wrong predicate.",
+  "technique": "literal-table extraction + static call-chain and guard-shape checks (go/types, AST)",
+ },
+ "C06": {
+  "text": "Decides the skeleton of rule selection and suppression: category nesting MINIMAL⊆BASIC⊆STANDARD(/DEFAULT) in every spec; in newRulesConfig inserted ids derive from `use` and "
+          "deleted ids from `except`, both through category expansion and un-deprecation, ignore_only through its pair of transforms and normalisation (SSA data dependence on "
+          "parameters and calls); unknown ids return an error; no insertion is reachable after a deletion; the filter is FilterError of its input with the negated ignore "
+          "decision; every `return true` of ignoreFileLocation is guarded by a condition reading the config; comment directives are gated by AllowCommentIgnores && prefix != \"\", "
+          "matched against the annotation's own rule id and only as a whole word unless the lint ids are prefix-free (this found COMMENT_ENUM < COMMENT_ENUM_VALUE); ExcludeImports "
+          "is read by the filter and set only from the option.",
+  "note": "Not decided: the algebraic laws over all configurations (union of single-rule results, monotonicity of suppression) — they quantify over run-time annotation sets.",
+  "technique": "SSA data-dependence slices + CFG reachability + table obligations",
+ },
 }
